@@ -5,6 +5,7 @@ Property theorems only; helper lemmas live in `CtyModel/Lemmas`.
 -/
 import CtyModel.Lemmas.d03Rules
 import CtyModel.Lemmas.d03Marks
+import CtyModel.Lemmas.d03SetVal
 import CtyModel.Lemmas.SetRefineRun
 import CtyModel.Lemmas.ValEqRules
 import CtyModel.Lemmas.ValEqSymm
@@ -872,6 +873,107 @@ theorem equals_symm_marks (a b : Value) (wa : a.shaped = true) (wb : b.shaped = 
 
 example : equals ⟨.list .string, .seq [.marked ["m"] (.s "a"), .unk .unref]⟩ ⟨.list .string, .marked ["k"] (.seq [.s "a", .s "b"])⟩
     = .ok ⟨.bool, .marked ["k", "m"] (.unk (.nullable .f))⟩ := by decide +kernel
+
+/-! #### set-TYPED values of primitive element type (missing theorem (c)) -/
+
+/-- Iterating a set value of strings, bools or numbers (`ElementIterator`,
+`AsValueSlice`: Go's `Set.Values()` with `setRules.Less`) never fails — null and
+unknown members included — and yields the stable sort of the stored members by
+`primLessB`. -/
+theorem setIter_total_prim (e : Ty) (he : e.isPrim = true) (vs : List Payload)
+    (h : ∀ p ∈ vs, p.shaped e = true ∧ p.containsMarked = false) :
+    setIter e vs = .ok (SetImpl.sortStable (primLessB e) vs) :=
+  setIter_prim he h
+
+/-- **`RawEquals` of two set values** of one primitive element type never fails and
+is: same number of members, and the two iteration orders agree position by
+position (`rawBList`). -/
+theorem rawEquals_set_prim (e : Ty) (he : e.isPrim = true) (ix iy : List Int) (xs ys : List Payload)
+    (hx : ∀ p ∈ xs, p.shaped e = true ∧ p.containsMarked = false)
+    (hy : ∀ p ∈ ys, p.shaped e = true ∧ p.containsMarked = false) :
+    rawEq ⟨.set e, .sset ix xs⟩ ⟨.set e, .sset iy ys⟩ =
+      .ok (decide (xs.length = ys.length) &&
+        rawBList e (SetImpl.sortStable (primLessB e) xs) (SetImpl.sortStable (primLessB e) ys)) :=
+  rawEq_set_prim he hx hy
+
+/-- `RawEquals` is reflexive on set values of primitive element type (members may be
+null or unknown with any refinement). -/
+theorem rawEquals_refl_set_prim (e : Ty) (he : e.isPrim = true) (ids : List Int) (vs : List Payload)
+    (h : ∀ p ∈ vs, p.shaped e = true ∧ p.containsMarked = false) :
+    rawEq ⟨.set e, .sset ids vs⟩ ⟨.set e, .sset ids vs⟩ = .ok true := by
+  rw [rawEq_set_prim he h h]
+  simp [rawBList_refl he (fun p hp => h p ((SetImpl.mem_sortStable _ _ _).mp hp))]
+
+/-- `cty.SetVal` of unmarked, quotable members of one primitive type IS the generic
+set built by `Add`ing the inputs in order under `setRules{e}`. -/
+theorem setVal_is_fromList_prim (e : Ty) (he : e.isPrim = true) (l : List Payload) (hne : l ≠ [])
+    (hl : ∀ p ∈ l, (p.shaped e = true ∧ p.containsMarked = false) ∧ p.quotable = true) :
+    mkSetVal (l.map fun p => (⟨e, p⟩ : Value)) = .ok ⟨.set e, setPayload (SetImpl.fromList (ctyRules e) l)⟩ :=
+  mkSetVal_prim he hne hl
+
+/-- **`SetValOrderIndependent`, where it holds.**  Sets built (`SetVal`, or any
+`Add` sequence) from a list and from a permutation of it — pairwise different
+wholly known strings, bools or integers of any precisions, with or without a
+null — are `RawEquals` and iterate identically: the full-strength clause
+`SetValOrderIndependent` restricted to primitive element types and integer
+numbers (its refutations `set_order_counterexample` and the 0.1-at-two-precisions
+witness lie outside: a tuple type, a non-integer). -/
+theorem setVal_order_independent_partial (e : Ty) (he : e.isPrim = true) (l l' : List Payload)
+    (hl : ∀ p ∈ l, p.intMember e = true) (hne : l.Pairwise (fun a b => rawB e a b = false)) (hperm : l.Perm l') :
+    rawEq ⟨.set e, setPayload (SetImpl.fromList (ctyRules e) l)⟩
+      ⟨.set e, setPayload (SetImpl.fromList (ctyRules e) l')⟩ = .ok true ∧
+    setIter e (SetImpl.values (SetImpl.fromList (ctyRules e) l)) =
+      setIter e (SetImpl.values (SetImpl.fromList (ctyRules e) l')) := by
+  obtain ⟨hp, hw⟩ := Ty.isPrim_plain he
+  have hl' : ∀ p ∈ l', p.intMember e = true := fun p h => hl p (hperm.mem_iff.mpr h)
+  -- pairwise difference is symmetric between admitted members, so it survives the permutation
+  have hne' : l'.Pairwise (fun a b => rawB e a b = false) := by
+    have h1 : l.Pairwise (fun a b => (a.intMember e = true ∧ b.intMember e = true) ∧ rawB e a b = false) :=
+      List.Pairwise.imp_of_mem (fun ha hb h => ⟨⟨hl _ ha, hl _ hb⟩, h⟩) hne
+    have h2 := (List.Perm.pairwise_iff (l₁ := l) (l₂ := l') (fun {a b} h => by
+      refine ⟨⟨h.1.2, h.1.1⟩, ?_⟩
+      rw [rawB_symm e b a hp (Payload.intMember_spec h.1.2).1 (Payload.intMember_spec h.1.1).1]; exact h.2) hperm).mp h1
+    exact h2.imp fun h => h.2
+  have p1 := values_fromList_perm_ints hw hp hl hne
+  have p2 := values_fromList_perm_ints hw hp hl' hne'
+  have hx : ∀ p ∈ SetImpl.values (SetImpl.fromList (ctyRules e) l), p.intMember e = true :=
+    fun p h => hl p (p1.mem_iff.mp h)
+  have hy : ∀ p ∈ SetImpl.values (SetImpl.fromList (ctyRules e) l'), p.intMember e = true :=
+    fun p h => hl' p (p2.mem_iff.mp h)
+  have hnx : (SetImpl.values (SetImpl.fromList (ctyRules e) l)).Pairwise (fun a b => rawB e a b = false) := by
+    have h1 : l.Pairwise (fun a b => (a.intMember e = true ∧ b.intMember e = true) ∧ rawB e a b = false) :=
+      List.Pairwise.imp_of_mem (fun ha hb h => ⟨⟨hl _ ha, hl _ hb⟩, h⟩) hne
+    have h2 := (List.Perm.pairwise_iff (fun {a b} h => by
+      refine ⟨⟨h.1.2, h.1.1⟩, ?_⟩
+      rw [rawB_symm e b a hp (Payload.intMember_spec h.1.2).1 (Payload.intMember_spec h.1.1).1]; exact h.2) p1.symm).mp h1
+    exact h2.imp fun h => h.2
+  have hsort := sortStable_prim_perm he hx hnx (p1.trans (hperm.trans p2.symm))
+  have hxm := fun p h => primMem_of_intMember (hx p h)
+  have hym := fun p h => primMem_of_intMember (hy p h)
+  refine ⟨?_, ?_⟩
+  · simp only [setPayload]
+    rw [rawEq_set_prim he hxm hym, hsort]
+    simp [(p1.trans (hperm.trans p2.symm)).length_eq,
+      rawBList_refl he (fun p hp => hym p ((SetImpl.mem_sortStable _ _ _).mp hp))]
+  · rw [setIter_prim he hxm, setIter_prim he hym, hsort]
+
+/-- two integers at different precisions and a null, in two insertion orders -/
+example :
+    mkSetVal [⟨.number, .n (.fin false 1 70 53)⟩, ⟨.number, .null⟩, ⟨.number, .n (.fin false 3 0 512)⟩] =
+      .ok ⟨.set .number, setPayload (SetImpl.fromList (ctyRules .number)
+        [.n (.fin false 1 70 53), .null, .n (.fin false 3 0 512)])⟩ ∧
+    rawEq ⟨.set .number, setPayload (SetImpl.fromList (ctyRules .number)
+        [.n (.fin false 1 70 53), .null, .n (.fin false 3 0 512)])⟩
+      ⟨.set .number, setPayload (SetImpl.fromList (ctyRules .number)
+        [.n (.fin false 3 0 512), .n (.fin false 1 70 53), .null])⟩ = .ok true := by
+  refine ⟨setVal_is_fromList_prim .number rfl [.n (.fin false 1 70 53), .null, .n (.fin false 3 0 512)]
+      (by simp) (by decide +kernel),
+    (setVal_order_independent_partial .number rfl [.n (.fin false 1 70 53), .null, .n (.fin false 3 0 512)]
+      [.n (.fin false 3 0 512), .n (.fin false 1 70 53), .null] (by decide +kernel) ?_ ?_).1⟩
+  · have h : Num.rawEqual (.fin false 1 70 53) (.fin false 3 0 512) = false := by decide +kernel
+    simp [rawB, h]
+  · exact (List.Perm.cons _ (List.Perm.swap _ _ _)).trans (List.Perm.swap _ _ _) |>.trans
+      (List.Perm.cons _ (List.Perm.refl _)) |>.symm |>.symm
 
 end Values
 /-! ######################## end of SECTION «values» ######################## -/
